@@ -118,6 +118,8 @@ def run(ctx):
         b = rng.choice([0, 8, 16])
         salt = rng.choice(["s", "T", "netconan"])
         opts = {"ip": True, "salt": salt, "dump": True, "b4": b, "b6": b, "hostbits": b}
+        if k % 3 == 2:      # the dump path is not fresh: it holds the map an earlier run (other salt) left there
+            opts["dump_stale"] = "1.2.3.4\t77.1.2.3\n8.8.8.8\t9.9.9.9\n::1\t::2\n"
         tree = [[rel, base64.b64encode("".join(ls).encode()).decode(), {}] for rel, ls in files]
         fcases.append(["files", "main" if k % 2 else "api", json.dumps(opts), json.dumps(tree)])
         fmeta.append((files, salt, b))
